@@ -124,6 +124,12 @@ AssignChem(k) ==
   /\ freshC' = FALSE
   /\ UNCHANGED <<sysq, init, cellEnv, vol, dens, chs, state, freshS>>
   /\ Step("assign_chem", [k |-> k])
+(* the environment: the caller goes on using the arrays it handed to AssignState / AssignChem earlier (overwrites them in place). *)
+(* The system holds its own arrays, so this is a stuttering step for the system - named so that TLC places it anywhere in a       *)
+(* history and the replay performs it on the real objects                                                                          *)
+CallerEdits ==
+  /\ UNCHANGED <<sysq, init, cellEnv, vol, dens, chs, state, chem, freshS, freshC>>
+  /\ Step("caller_edits", [x |-> 0])
 Copy ==
   /\ UNCHANGED <<sysq, init, cellEnv, vol, dens, chs, state, chem, freshS, freshC>>
   /\ Step("copy", [x |-> 0])
@@ -141,12 +147,12 @@ DoEditVol     == \E c \in 0..(N - 1), v \in VolVals : EditVol(c, v)
 DoAssignState == \E k \in 1..3, u \in QUnits \cup {"bare"} : AssignState(k, u)
 DoAssignChem  == \E k \in 0..1 : AssignChem(k)
 Kinds == {"set_state", "set_chem", "reset_state", "reset_chem", "regen_state", "regen_chem", "edit_dens", "edit_chs",
-          "assign_state", "assign_chem", "copy", "roundtrip", "edit_env", "edit_vol"}
+          "assign_state", "assign_chem", "copy", "roundtrip", "edit_env", "edit_vol", "caller_edits"}
 OfKind(k) == CASE k = "set_state" -> DoSetState [] k = "set_chem" -> DoSetChem [] k = "reset_state" -> ResetState
                [] k = "reset_chem" -> ResetChem [] k = "regen_state" -> RegenState [] k = "regen_chem" -> RegenChem
                [] k = "edit_dens" -> DoEditDens [] k = "edit_chs" -> DoEditChs [] k = "assign_state" -> DoAssignState
                [] k = "assign_chem" -> DoAssignChem [] k = "copy" -> Copy [] k = "roundtrip" -> RoundTrip
-               [] k = "edit_env" -> DoEditEnv [] k = "edit_vol" -> DoEditVol
+               [] k = "edit_env" -> DoEditEnv [] k = "edit_vol" -> DoEditVol [] k = "caller_edits" -> CallerEdits
 
 Next ==
   /\ Len(hist) < Depth
